@@ -101,3 +101,6 @@ META = {
 
 # ROUND-8-APPEND
 PROP['rule'] += " Round 8: c12.greet: the boundary between handshake and session on the wire - the fake server writes packets in the SAME Write as its handshake answer (unknown magic, pong / answer for unknown ids, auth nonce, empty and short payloads, a 5 KiB burst longer than a bufio buffer, and on a re-established connection the answers of the calls that were in flight when the old one was reset), on every connection and generation, 1-2 hook connections and the unmodified NewConnection/NewClient: every call gets its own answer before and after the reconnect, in-flight calls get the answer written behind the new handshake answer, registry empty, Connection.mu not stuck. c12.locks (go/ast over package liteclient, lock state followed through the statements) and the coq_gen obligation C12_gen_no_reentrant_locking over Generated/ConnLocks.v + ConnSends.v: no method is called with the receiver's mu held that locks that mu itself, directly or through what it calls synchronously on the same receiver (sync.Mutex is not re-entrant); non-vacuity: the lockers of connection.go and the held call handleAuthResponse -> sendAuthComplete are found."
+
+# ROUND-8-META
+META['text'] += " Round 8: source obligation C12_gen_no_reentrant_locking (vm_compute over the lock sections and receiver calls the translator extracts from package liteclient on every run): no method is called with the receiver's mutex held that locks it again, directly or transitively; the fake server also writes packets in the same Write as its handshake answer."
